@@ -30,7 +30,25 @@ func (c *Case) genTop(t *rapid.T) {
 		ts := s.toTypeSettings(nil)
 		c.TopCall = &ts
 	}
-	switch rapid.IntRange(0, 9).Draw(t, l+".kind") {
+	switch rapid.IntRange(0, 10).Draw(t, l+".kind") {
+	case 10:
+		// a byte array (by value or through a pointer) whose object type comes with the call only
+		n := rapid.IntRange(1, 8).Draw(t, l+".n")
+		code := &Code{W: rapid.SampledFrom([]int{1, 4}).Draw(t, l+".codeW")}
+		if code.W == 1 {
+			code.V = uint32(rapid.IntRange(0, 255).Draw(t, l+".codeV"))
+		} else {
+			code.V = rapid.Uint32().Draw(t, l+".codeV")
+		}
+		arr := &Node{Kind: KByteArr, T: reflect.ArrayOf(n, numTypes[KUint8]), N: n, Code: code}
+		ts := Settings{}.toTypeSettings(code)
+		c.TopCall = &ts
+		if rapid.Bool().Draw(t, l+".ptr") {
+			c.Top = &Node{Kind: KPtr, T: reflect.PointerTo(arr.T), Elem: arr}
+		} else {
+			c.Top = arr
+		}
+		c.TopKind = "byte_array_with_call_object_type"
 	case 0:
 		c.Top, c.TopKind = c.genNamedColl(t, l), "named_collection"
 	case 1, 2:
